@@ -25,6 +25,168 @@ verus! {
 fn filter<'a>(i: &'a [u8]) -> (r: IResult<&'a [u8], Tag>) ensures denotes(r, i, d_filter(i@)) { unimplemented!() }
 
 
+// RFC 4511 4.5.1: Filter ::= CHOICE { and [0], or [1], not [2], equalityMatch [3], substrings [4], greaterOrEqual [5],
+//   lessOrEqual [6], present [7], approxMatch [8], extensibleMatch [9] }; SubstringFilter: initial [0], any [1], final [2]
+pub proof fn filter_tag_numbers_rfc4511()
+    ensures
+        AND_FILT == 0 && OR_FILT == 1 && NOT_FILT == 2, //# C08.and_or_not_tag_numbers
+        EQ_MATCH == 3 && SUBSTR_MATCH == 4 && GTE_MATCH == 5 && LTE_MATCH == 6 && PRES_MATCH == 7 && APPROX_MATCH == 8 && EXT_MATCH == 9, //# C08.match_tag_numbers
+        SUB_INITIAL == 0 && SUB_ANY == 1 && SUB_FINAL == 2, //# C08.substring_tag_numbers
+{ }
+
+// ------------------------------------------------------------------ leaves
+//@lift name=is_value_char file=src/filter.rs fn=is_value_char
+//@ sub "fn is_value_char(&c: &u8) -> bool" => "fn is_value_char(c0: &u8) -> bool"
+//@ ret r
+//@ insert entry
+    let c = *c0;
+//@ spec
+    ensures r == value_char(*c0), //# C08.value_chars_exclude_exactly_nul_parens_asterisk
+//@end
+
+//@lift name=extensible_tag file=src/filter.rs fn=extensible_tag
+//@ sub "let mut inner = vec![];" => "let mut inner: Vec<Tag> = vec![];"
+//@ ret r
+//@ insert before "Tag::Sequence(Sequence {\n        class: TagClass::Context,\n        id: EXT_MATCH,"
+    proof {
+        lemma_trees_len(inner@, inner@.len());
+        assert(trees(inner@, inner@.len()) =~= mra_kids(match mrule { Some(s) => Some(s@), None => None }, match attr { Some(s) => Some(s@), None => None }, value@, dn));
+    } //# C08.extensible_match_components_in_order
+//@ spec
+    ensures
+        // RFC 4511 4.5.1 MatchingRuleAssertion ::= SEQUENCE { matchingRule [1] OPTIONAL, type [2] OPTIONAL, matchValue [3],
+        //   dnAttributes [4] BOOLEAN DEFAULT FALSE }
+        tree(r) == mra(match mrule { Some(s) => Some(s@), None => None }, match attr { Some(s) => Some(s@), None => None }, value@, dn), //# C08.extensible_match_assembly_rfc4511
+//@end
+
+// ------------------------------------------------------------------ lexers
+//@lift name=is_alnum_hyphen file=src/filter.rs fn=is_alnum_hyphen
+//@ ret b
+//@ spec
+    ensures b == is_anh(c), //# C08.keychar_is_alnum_or_hyphen
+//@end
+
+//@lift name=number file=src/filter.rs fn=number
+//@ sub "fn number(i: &[u8])" => "fn number<'a>(i: &'a [u8])"
+//@ sub "IResult<&[u8], &[u8]>" => "IResult<&'a [u8], &'a [u8]>"
+//@ sub "verify(digit1," => "verify_slice(digit1,"
+//@ ret r
+//@ closure at="|d: &[u8]|" params="d: &'a [u8]" ret="(b: bool)"
+        requires d@.len() >= 1
+        ensures b == (d@.len() == 1 || d@[0] != 0x30)
+//@ insert entry
+    proof {
+        assert forall|j: Seq<u8>| 0 <= #[trigger] run(j, p_digit()) <= j.len() by { lemma_run_bounds(j, p_digit()); }
+    }
+//@ spec
+    ensures recognised(r, i, lxd_number(i@)), //# C08.number_has_no_superfluous_leading_zero
+//@end
+
+//@lift name=descr file=src/filter.rs fn=descr
+//@ sub "fn descr(i: &[u8])" => "fn descr<'a>(i: &'a [u8])"
+//@ sub "IResult<&[u8], &[u8]>" => "IResult<&'a [u8], &'a [u8]>"
+//@ sub "verify(be_u8," => "verify_val(be_u8,"
+//@ ret r
+//@ closure at="|i| -> IResult<&[u8], ()>" params="i: &'a [u8]" ret="(cr: IResult<&'a [u8], ()>)"
+        ensures match lxd_descr(i@) { Some(n) => 0 <= n <= i@.len() && (cr matches Ok(p) && p.0@ == i@.skip(n)), None => cr is Err }
+//@ closure at="|c| is_alphabetic(*c)" params="c: &u8" ret="(b: bool)"
+            ensures b == is_alpha(*c)
+//@ insert entry
+    proof { if i@.len() > 0 { lemma_run_bounds(i@.skip(1), p_anh()); } }
+//@ insert before "let (i, _) = verify_val(be_u8"
+        let ghost i0 = i@;
+//@ insert before "let (i, _) = take_while(is_alnum_hyphen)(i)?;"
+        let ghost i1 = i@;
+//@ insert after "let (i, _) = take_while(is_alnum_hyphen)(i)?;"
+        proof {
+            let k = choose|k: int| #[trigger] wit(k) && 0 <= k <= i1.len()
+                && (forall|j: int| 0 <= j < k ==> is_alnum_hyphen.ensures((#[trigger] i1[j],), true))
+                && (k < i1.len() ==> is_alnum_hyphen.ensures((i1[k],), false)) && i@ == i1.skip(k);
+            lemma_run_unique(i1, p_anh(), k);
+            assert(i@ =~= i0.skip(1 + k));
+        }
+//@ spec
+    ensures recognised(r, i, lxd_descr(i@)), //# C08.descr_is_a_letter_then_letters_digits_hyphens
+//@end
+
+//@lift name=numericoid file=src/filter.rs fn=numericoid
+//@ rules +R11
+//@ sub "fn numericoid(i: &[u8])" => "fn numericoid<'a>(i: &'a [u8])"
+//@ sub "IResult<&[u8], &[u8]>" => "IResult<&'a [u8], &'a [u8]>"
+//@ ret r
+//@ closure at="|i| -> IResult<&[u8], ()>" params="i: &'a [u8]" ret="(cr: IResult<&'a [u8], ()>)"
+        ensures match lxd_numericoid(i@) { Some(n) => 0 <= n <= i@.len() && (cr matches Ok(p) && p.0@ == i@.skip(n)), None => cr is Err }
+//@ insert entry
+    proof { lemma_lits_lex(); }
+//@ insert before "let (i, _) = number(i)?;"
+        let ghost i0 = i@;
+//@ insert after "let (i, _) = number(i)?;"
+        let ghost i1 = i@;
+        proof {
+            assert(wit(den_dotnum()));
+            assert forall|ii: &'a [u8], rr: IResult<&'a [u8], Seq<&'a [u8]>>| #[trigger] m0_res(den_dotnum(), ii, rr) implies skipped(rr, ii, lxd_dotnums(ii@)) by { lemma_dotnums(ii, rr); }
+        }
+//@ insert after "let (i, _) = many0(preceded("
+        proof { assert(i@ =~= i0.skip(lxd_number(i0)->0 + lxd_dotnums(i1))); }
+//@ spec
+    ensures recognised(r, i, lxd_numericoid(i@)), //# C08.numericoid_is_numbers_separated_by_dots
+//@end
+
+//@lift name=attributetype file=src/filter.rs fn=attributetype
+//@ sub "fn attributetype(i: &[u8])" => "fn attributetype<'a>(i: &'a [u8])"
+//@ sub "IResult<&[u8], &[u8]>" => "IResult<&'a [u8], &'a [u8]>"
+//@ ret r
+//@ insert entry
+    proof { reveal(lx_attrtype); }
+//@ spec
+    ensures recognised(r, i, lx_attrtype(i@)), //# C08.attribute_type_is_numericoid_or_descr
+//@end
+
+//@lift name=attributedescription file=src/filter.rs fn=attributedescription
+//@ rules +R11
+//@ sub "fn attributedescription(i: &[u8])" => "fn attributedescription<'a>(i: &'a [u8])"
+//@ sub "IResult<&[u8], &[u8]>" => "IResult<&'a [u8], &'a [u8]>"
+//@ ret r
+//@ closure at="|i| -> IResult<&[u8], ()>" params="i: &'a [u8]" ret="(cr: IResult<&'a [u8], ()>)"
+        ensures match lxd_attrdesc(i@) { Some(n) => 0 <= n <= i@.len() && (cr matches Ok(p) && p.0@ == i@.skip(n)), None => cr is Err }
+//@ insert entry
+    proof { lemma_lits_lex(); reveal(lx_attrdesc); reveal(lx_attrtype); }
+//@ insert before "let (i, _) = attributetype(i)?;"
+        let ghost i0 = i@;
+//@ insert after "let (i, _) = attributetype(i)?;"
+        let ghost i1 = i@;
+        proof {
+            assert(wit(den_option()));
+            assert forall|ii: &'a [u8], rr: IResult<&'a [u8], Seq<&'a [u8]>>| #[trigger] m0_res(den_option(), ii, rr) implies skipped(rr, ii, lxd_options(ii@)) by { lemma_options(ii, rr); }
+        }
+//@ insert after "let (i, _) = many0(preceded("
+        proof { assert(i@ =~= i0.skip(lxd_attrtype(i0)->0 + lxd_options(i1))); }
+//@ spec
+    ensures recognised(r, i, lx_attrdesc(i@)), //# C08.attribute_description_is_a_type_followed_by_options
+//@end
+
+//@lift name=unescaped file=src/filter.rs fn=unescaped
+//@ sub "fn unescaped(i: &[u8])" => "fn unescaped<'a>(i: &'a [u8])"
+//@ sub "IResult<&[u8], Vec<u8>>" => "IResult<&'a [u8], Vec<u8>>"
+//@ sub "verify(be_u8, is_value_char)" => "verify_val(be_u8, is_value_char)"
+//@ ret r
+//@ closure at="|| (Unescaper::Value(0), Vec::new())" params="" ret="(a0: (Unescaper, Vec<u8>))"
+                ensures a0.0 == Unescaper::Value(0), a0.1@ == Seq::<u8>::empty()
+//@ closure at="|(mut u, mut vec): (Unescaper, Vec<_>), c: u8|" destructure="acc" params="acc: (Unescaper, Vec<u8>), c: u8" ret="(a2: (Unescaper, Vec<u8>))"
+                ensures wf_un(acc.0) ==> (a2.0 == feed_spec(acc.0, c) && wf_un(a2.0) && a2.1@ == (if a2.0 is Value { acc.1@.push(a2.0->Value_0) } else { acc.1@ })), //# C08+C09.value_bytes_are_the_unescaped_bytes_in_order
+//@ closure at="|(u, vec): (Unescaper, Vec<_>)| -> Result<Vec<u8>, ()>" destructure="uv" params="uv: (Unescaper, Vec<u8>)" ret="(gr: core::result::Result<Vec<u8>, ()>)"
+            ensures gr is Ok <==> uv.0 is Value, gr matches Ok(w) ==> w@ == uv.1@, //# C08.incomplete_or_malformed_escape_is_an_error
+//@ insert entry
+    proof {
+        reveal(lx_unescaped);
+        assert(wit(den_vchar())); assert(wit(iden_un())); assert(wit(gden_un()));
+        assert forall|ii: &'a [u8], a: (Unescaper, Vec<u8>), rr: IResult<&'a [u8], (Unescaper, Vec<u8>)>| #[trigger] fm_loop(den_vchar(), gden_un(), ii, a, rr) && wf_un(a.0) implies scanned(rr, ii, a.0, a.1@) by { lemma_scan(ii, a, rr); }
+    }
+//@ spec
+    ensures valued(r, i, lx_unescaped(i@)), //# C08+C09.assertion_value_lexer_unescapes_rfc4515
+//@end
+
+// ------------------------------------------------------------------ productions
 //@lift name=non_eq file=src/filter.rs fn=non_eq
 //@ rules +R11
 //@ sub "fn non_eq(i: &[u8])" => "fn non_eq<'a>(i: &'a [u8])"
@@ -273,14 +435,18 @@ fn filter<'a>(i: &'a [u8]) -> (r: IResult<&'a [u8], Tag>) ensures denotes(r, i, 
 //@ sub "fn filtercomp(i: &[u8])" => "fn filtercomp<'a>(i: &'a [u8])"
 //@ sub "IResult<&[u8], Tag>" => "IResult<&'a [u8], Tag>"
 //@ ret r
+//@ insert entry
+    proof { lemma_alternatives_disjoint(i@); }   // the order of the (disjoint) alternatives does not matter
 //@ spec
-    ensures denotes(r, i, d_filtercomp(i@)), //# C08.filtercomp_is_and_or_not_item_in_that_order
+    ensures denotes(r, i, d_filtercomp(i@)), //# C08.filtercomp_is_one_of_and_or_not_item
 //@end
 
 //@lift name=filtexpr file=src/filter.rs fn=filtexpr
 //@ sub "fn filtexpr(i: &[u8])" => "fn filtexpr<'a>(i: &'a [u8])"
 //@ sub "IResult<&[u8], Tag>" => "IResult<&'a [u8], Tag>"
 //@ ret r
+//@ insert entry
+    proof { lemma_alternatives_disjoint(i@); }   // the order of the (disjoint) alternatives does not matter
 //@ spec
     ensures denotes(r, i, d_filtexpr(i@)), //# C08.filter_expression_is_a_parenthesised_filter_or_a_bare_item
 //@end
